@@ -582,7 +582,8 @@ def strength(world, pool, tier, rng, extra_keys):
             world.op("ck 0 verify " + hx(tok), tag="verify")
     # public-key: every key against every PK algorithm, token signed by the oracle where the family matches
     allk = dict(pool.keys)
-    allk.update(extra_keys)
+    for n_, k_ in extra_keys.items():
+        allk[n_ if n_ not in allk else n_ + "-extra"] = k_      # never shadow a pool key: signatures are made by name
     for name, key in allk.items():
         if key.kind == "oct":
             continue
